@@ -169,6 +169,26 @@ def generate(rng: random.Random, tier: str):
             # consumers requested after the spiral: the shape that pollutes the cache
             months = rs.MONTHS
             c.reqs = [("calc", rng.randrange(len(c.vars)), rng.choice(months[1:])) for _ in range(rng.randint(2, 6))]
+        if kind == "spiral" and rng.random() < 0.35:
+            # siblings that SUM a variable of the spiral chain with the ADD option, evaluated inside the same request after
+            # the spiral tainted (and marked) its months: yearly S = a + k * ADD(X), C = b + ADD(X), Top = S + C.  Each piece
+            # C reads is a marked entry: C and Top must be discarded with it.
+            xs = [j for j, w in enumerate(c.vars) if w.unit == "month"]
+            if xs:
+                x = rng.choice(xs)
+                ent = c.vars[x].entity
+                n0 = len(c.vars)
+                add_x = ("v", x, "same", True)
+                c.vars.append(rs.Var(entity=ent, vtype="float", unit="year", dflt=0,
+                                     formulas=[(1, ("o2", 0, ("c", rng.randint(1, 5)), ("o1", 150 + rng.choice([1, 2]), add_x)))]))
+                c.vars.append(rs.Var(entity=ent, vtype="float", unit="year", dflt=0, formulas=[(1, ("o2", 0, ("c", rng.randint(1, 5)), add_x))]))
+                first, second = (n0, n0 + 1) if rng.random() < 0.7 else (n0 + 1, n0)
+                c.vars.append(rs.Var(entity=ent, vtype="float", unit="year", dflt=0,
+                                     formulas=[(1, ("o2", 0, ("v", first, "same", False), ("v", second, "same", False)))]))
+                year = rng.choice(rs.YEARS)
+                extra = [("calc", n0 + 2, year)] + ([("calc", rng.choice([n0, n0 + 1]), year)] if rng.random() < 0.5 else [])
+                k = rng.randrange(len(c.reqs) + 1)
+                c.reqs = c.reqs[:k] + extra + c.reqs[k:]
         tags = (f"kind={kind}", f"msl={msl}")
         if rng.random() < 0.3:
             # a cache blacklist naming 1-2 variables (inside the spiral chains too), with and without opt_out_cache
